@@ -43,8 +43,8 @@ var rules = []*Rule{
 		return append(append(ruleR17(p), p.tailSurvivedObligations()...), p.rolloverFromNonEmpty()...)
 	}},
 	{ID: "R5", Title: "INUSE: the unload refcount protocol", Props: []string{"C08", "C19"}, Run: ruleR5},
-	{ID: "R18", Title: "SNAPSHOT-REVALIDATION", Props: []string{"C08", "C12", "C03"}, Run: func(p *Prog) []Ob {
-		return append(append(append(ruleR18(p), p.deleteSerialised()...), p.staleReader()...), p.lostRaceIsNotAnAnswer()...)
+	{ID: "R18", Title: "SNAPSHOT-REVALIDATION", Props: []string{"C08", "C12", "C03", "C15"}, Run: func(p *Prog) []Ob {
+		return append(append(append(ruleR18(p), p.deleteSerialised()...), p.staleReader()...), append(p.lostRaceIsNotAnAnswer(), p.nothingDeletedMeansNothingToDelete()...)...)
 	}},
 	{ID: "R20", Title: "READER-LIFETIME: destructive segment operations exclude readers", Props: []string{"C08", "C03", "C12", "C04", "C09", "C10"}, Run: func(p *Prog) []Ob { return append(append(ruleR20(p), p.closeBeforeReplace()...), p.filesUnderALogLock()...) }},
 	{ID: "R21", Title: "HEAD-SCAN-BOUND", Props: []string{"C08"}, Run: ruleR21},
